@@ -339,7 +339,13 @@ def main(ck):
       g1, g2 = int(c['geom'][0]), int(c['geom'][1])
       S1, S2 = S[g1], S[g2]
       n = np.array(c['frame'][:3])
-      touching = is_ccd and abs(dmin - (M + G)) <= TOUCH_BAND * tol_ccd   # the collider works on shapes inflated by (margin+gap)/2     # EPA started from a (near) degenerate simplex
+      touching = is_ccd and abs(dmin - (M + G)) <= TOUCH_BAND * tol_ccd   # the collider works on shapes inflated by (margin+gap)/2
+      if is_ccd and not touching and not info['shifted'] and abs(info['delta'] - (M + G)) <= TOUCH_BAND * tol_ccd:
+        # constructed to touch (|signed distance - (margin+gap)| <= |delta - (margin+gap)|) but the collider reports something else
+        touching = True
+        if record:
+          finding('gjk-touching-band', 'geoms constructed to touch (delta %.3g) but the contact has dist %.6g' % (
+              info['delta'], dmin) + desc(), info)     # EPA started from a (near) degenerate simplex
       # ---- distance value
       f5 = pair == ('capsule', 'capsule') and np.linalg.norm(np.cross(S[0].mat[:, 2], S[1].mat[:, 2])) < 1e-6
       if f5:
